@@ -2,7 +2,7 @@ HOOKS = {
     'guard': 'json_syntax_verif',
     'enable': 'RUSTFLAGS --cfg json_syntax_verif, set in /verif/harness/.cargo/config.toml (the harness depends on /repo by path, so every check rebuilds the crate from the working tree with the hooks on)',
     'baseline_off_cmd': 'cd /repo && cargo test --workspace --no-fail-fast --offline',
-    'source_commits': [],
+    'source_commits': ['70615ea', '5a83f11'],
     'add_only': True,
 }
 
